@@ -150,6 +150,28 @@ def searchType (term : Bytes) (t : Ty) : Bool :=
   | some ns => ns.any (stringSearch term)
   | none => false
 
+mutual
+/-- `FieldNameFinder.matchType`: the term occurs in a leaf name of the type's record type or of a
+    record type anywhere inside it (records inside arrays, sets, maps, unions and errors count:
+    the evaluator's Walk reaches them). -/
+def matchType (term : Bytes) : Ty → Bool
+  | .named _ t => matchType term t
+  | .record fs => (fieldNames fs).any (stringSearch term) || matchFields term fs
+  | .array t => matchType term t
+  | .set t => matchType term t
+  | .error t => matchType term t
+  | .map k v => matchType term k || matchType term v
+  | .union ts => matchTys term ts
+  | .prim _ => false
+  | .enum _ => false
+def matchFields (term : Bytes) : Fields → Bool
+  | .nil => false
+  | .cons _ t r => matchType term t || matchFields term r
+def matchTys (term : Bytes) : Tys → Bool
+  | .nil => false
+  | .cons t r => matchType term t || matchTys term r
+end
+
 /-! ## Walk -/
 
 def Vals.any : Vals → (Val → Bool) → Bool
